@@ -53,6 +53,11 @@ Judge(i) ==
              \* a decode that consumed the wrong number of bytes still reported a checksum for the frame: judged as such
              \cup (IF ev.hard = 0 /\ "ok" \in DOMAIN ev.out /\ ev.out.ok = 4 /\ Expect(ev.bytes).ok = 1 /\ ev.out.crc # Expect(ev.bytes).crc
                    THEN {"crc"} ELSE {})
+             \* ... and the decode that follows it on the same stream is taken for the second frame (the same bytes again):
+             \* the checksum reported with it is not that frame's syndrome
+             \cup (IF ev.hard = 0 /\ "next_ok" \in DOMAIN ev.out /\ ev.out.ok = 4 /\ ev.out.next_ok = 1 /\ Expect(ev.bytes).ok = 1
+                      /\ ev.out.next_crc # Expect(ev.bytes).crc
+                   THEN {"crc"} ELSE {})
   IN /\ (IF d = {} THEN TRUE ELSE PrintT(<<"VERDICT", i, "reader|" \o ev.tag \o "|" \o Class(ev.bytes),
                                            {<<"C19", f>> : f \in d} \cup (IF "panic" \in d THEN {<<"C01", "panic">>} ELSE {})>>))
      /\ (IF own = {} THEN TRUE ELSE PrintT(<<"VERDICT", i, Class(ev.bytes), {<<Owner(f), f>> : f \in own}>>))
